@@ -100,6 +100,9 @@ func (ex *Exec) block(fr *Frame, b *ssa.BasicBlock, st *State, incoming map[*ssa
 			for _, r := range x.Results {
 				vals = append(vals, ex.operand(fr, st, r))
 			}
+			if fr.top && fr.contract != nil {
+				ex.returnGuards(fr, st, b, vals, x.Pos())
+			}
 			fr.rets = append(fr.rets, retInfo{st: st, vals: vals, pos: x.Pos()})
 			return
 		case *ssa.Panic:
@@ -144,7 +147,11 @@ func (ex *Exec) instr(fr *Frame, st *State, in ssa.Instruction) {
 			// *ref = structValue
 			et := x.Addr.Type().Underlying().(*types.Pointer).Elem()
 			if _, ok := et.Underlying().(*types.Struct); !ok {
-				panic(unsupported("store through pointer to " + et.String()))
+				ex.nilCheck(fr, st, a.S, x.Pos())
+				comp := "ptr:" + mangle(et.String())
+				h := ex.heapGet(st, comp, et)
+				st.heap[comp] = ex.vc.define("H_ptr", sx("Array", "Int", ex.vc.tc.sortOf(et)), sx("store", h, a.S, ex.asTerm(val, et).S))
+				return
 			}
 			ex.nilCheck(fr, st, a.S, x.Pos())
 			ex.storeStructAt(st, a.S, et, ex.asTerm(val, et))
@@ -436,7 +443,13 @@ func (ex *Exec) unop(fr *Frame, st *State, x *ssa.UnOp) Value {
 		case Term:
 			et := x.X.Type().Underlying().(*types.Pointer).Elem()
 			if _, ok := et.Underlying().(*types.Struct); !ok {
-				panic(unsupported("load through pointer to " + et.String()))
+				// pointer to a non-struct value: one heap component per pointee type
+				ex.nilCheck(fr, st, a.S, x.Pos())
+				comp := "ptr:" + mangle(et.String())
+				h := ex.heapGet(st, comp, et)
+				v := Term{S: sx("select", h, a.S), T: et}
+				ex.loadedFacts(st, v)
+				return v
 			}
 			ex.nilCheck(fr, st, a.S, x.Pos())
 			return ex.loadStructAt(st, a.S, et)
